@@ -569,6 +569,7 @@ fn run_world<const N: usize>(r: &mut Report, w: &World) -> anyhow::Result<()> {
 	let hyp = w.kind == "injective" || w.kind == "fixed";
 	if hyp { r.count("worlds_inside_theorem_hypotheses"); }
 	let canon = format!("{}|{}|{}|{}", g_mappings(&w.m), w.from, w.to, g_inh(&inh));
+	fbh::report::crumb(&replay_text(w, &inh, "the process died (stack overflow / abort / endless loop) while the remappers of this world were built or queried"));
 	r.count(&format!("namespaces_{N}"));
 	r.count(&format!("from_{}", if w.from == 0 { "first" } else { "not_first" }));
 	if w.from == w.to { r.count("from_equals_to"); }
